@@ -113,3 +113,21 @@ pub fn read_corpus(path: &Option<String>) -> Vec<String> {
     let Ok(s) = std::fs::read_to_string(p) else { return vec![] };
     s.lines().map(str::trim).filter(|l| !l.is_empty() && !l.starts_with('#')).map(String::from).collect()
 }
+
+// ---------------------------------------------------------------- counting allocator
+use std::alloc::{GlobalAlloc, Layout, System};
+use std::sync::atomic::{AtomicUsize, Ordering};
+
+/// records the largest single allocation requested since the last reset
+pub struct CountingAlloc;
+static MAX_ALLOC: AtomicUsize = AtomicUsize::new(0);
+
+unsafe impl GlobalAlloc for CountingAlloc {
+    unsafe fn alloc(&self, l: Layout) -> *mut u8 { MAX_ALLOC.fetch_max(l.size(), Ordering::Relaxed); unsafe { System.alloc(l) } }
+    unsafe fn dealloc(&self, p: *mut u8, l: Layout) { unsafe { System.dealloc(p, l) } }
+    unsafe fn alloc_zeroed(&self, l: Layout) -> *mut u8 { MAX_ALLOC.fetch_max(l.size(), Ordering::Relaxed); unsafe { System.alloc_zeroed(l) } }
+    unsafe fn realloc(&self, p: *mut u8, l: Layout, n: usize) -> *mut u8 { MAX_ALLOC.fetch_max(n, Ordering::Relaxed); unsafe { System.realloc(p, l, n) } }
+}
+
+pub fn alloc_reset() { MAX_ALLOC.store(0, Ordering::Relaxed); }
+pub fn alloc_max() -> usize { MAX_ALLOC.load(Ordering::Relaxed) }
